@@ -123,6 +123,7 @@ const (
 	EvCallRet // after an inlined call returned
 	EvIdxContainerStore
 	EvStoreResult // store to a named result variable
+	EvAliasWrite  // append to / element store through a slice value (Tags = provenance of the slice)
 )
 
 type Event struct {
